@@ -98,7 +98,7 @@ def primary_plan(contexts, messages, ts=IMPLICIT, max_len=16384, calling='CLI', 
 
 
 def sub_plan(store_statuses=None, report_status=0, accept=True, ts_choice=0, log=None, reject=None,
-             respond=True, confirm_release=True):
+             respond=True, confirm_release=True, max_len=16384):
     """Plan for a sub-association opened by the library (C-MOVE destination, commitment report):
     auto-accept every proposed context, answer C-STORE-RQ with the scripted statuses (cycled),
     answer N-EVENT-REPORT-RQ, answer A-RELEASE-RQ."""
@@ -114,7 +114,7 @@ def sub_plan(store_statuses=None, report_status=0, accept=True, ts_choice=0, log
                                              'reason': reject[2]})]
                 pcs = [it for it in rec['spec']['items'] if it['t'] == 0x20]
                 ans = [(it['id'], 0, it['ts'][ts_choice % len(it['ts'])]['name']) for it in pcs]
-                return [fd.incoming_pdu(fd.ac_spec(ans, 16384, rec['spec']['called'], rec['spec']['calling']))]
+                return [fd.incoming_pdu(fd.ac_spec(ans, max_len, rec['spec']['called'], rec['spec']['calling']))]
             if t == 5:
                 # (a peer that never confirms the release makes the releasing side run into its time-out)
                 return [fd.incoming_pdu({'t': 6, 'r1': 0, 'r2': 0})] if confirm_release else []
